@@ -1,5 +1,6 @@
 import AquaVerif.Proofs.CatalogueCfg
 import AquaVerif.Proofs.CropCalendar
+import AquaVerif.Proofs.PrepareGdd
 import AquaVerif.Proofs.RunClosedRw
 import AquaVerif.Proofs.CropFull
 import AquaVerif.Proofs.Run
@@ -331,6 +332,42 @@ theorem thermal_calendar_ordered {F : Fn α} {c : CalGDDIn α} {temps : List (α
     1 ≤ o.days.hiStartCD ∧ o.days.hiStartCD ≤ o.days.hiEndCD ∧
     o.days.hiEndCD ≤ o.days.maturityCD ∧ o.days.maturityCD < 365 ∧ 0 ≤ o.days.yldFormCD :=
   calendarInit_order h hy hm
+
+/-- **calendar-day crop converted to thermal time** (`SwitchGDD = 1`, `compute_crop_calendar` +
+`prepare_gdd`, summary `'mean'`, fewer than 8 seasons in the window so that numpy's mean is the plain
+sum): the converted thresholds keep the order of the calendar-day positions they were read at.
+`toInt` is Python's `int(·)`; no law of `F` is used. -/
+theorem converted_calendar_ordered {F : Fn α} {toInt : α → Int} {c : CalCDIn α} {m : Nat}
+    {tbase tupp oldYF oldFD : α} {hasCol : Bool} {rows : List (Option Nat × α × α)}
+    {r : CalSwitchOut α} (htb : tbase ≤ tupp)
+    (hn : (uniqLabels (rows.map (·.1))).length < 8)
+    (h : calendarInitCDSwitch F toInt c m tbase tupp hasCol 0 oldYF oldFD rows = .ok r)
+    (h0 : 0 ≤ toInt c.emergenceCD) (h1 : toInt c.emergenceCD ≤ toInt c.senescenceCD)
+    (h2 : toInt c.senescenceCD ≤ toInt c.maturityCD) :
+    r.cal.emergence ≤ r.cal.senescence ∧ r.cal.senescence ≤ r.cal.maturity :=
+  let o := calendarInitCDSwitch_mean_order htb hn h
+  ⟨o.2.2.1 h0 h1, o.2.2.2.1 (le_trans h0 h1) h2⟩
+
+/-- … with a single season in the window the converted threshold of every stage IS the cumulative
+growing degrees at its calendar-day position (mean and median alike). -/
+theorem converted_calendar_single_season {toInt : α → Int} {cropType : Nat} {hasCol : Bool}
+    {sumFun : Nat} {s : GddStagesIn α} {old g : GddStages α} {rows : List (Option Nat × α)} {k : Option Nat}
+    (h : prepareGdd toInt cropType hasCol sumFun s old rows = .ok g)
+    (hk : uniqLabels (rows.map (·.1)) = [k]) (hs : sumFun = 0 ∨ sumFun = 1) (a : Stage) :
+    iloc (cumsum (seasonGdd rows k)) (toInt (a.cd s)) = some (a.val g) :=
+  prepareGdd_single_season h hk hs a
+
+/-- **Finding (modelled faithfully, proved of the model).**  After a successful conversion the
+calendar type is 2 but `YldForm` and the flowering length still hold their *calendar-day* values
+(`prepare_gdd` stores the converted lengths under the attribute names `YieldFormation` /
+`FloweringDuration`, which nothing reads). -/
+theorem converted_calendar_keeps_day_valued_lengths {F : Fn α} {toInt : α → Int} {c : CalCDIn α}
+    {m : Nat} {tbase tupp oldYF oldFD : α} {hasCol : Bool} {sumFun : Nat}
+    {rows : List (Option Nat × α × α)} {r : CalSwitchOut α}
+    (h : calendarInitCDSwitch F toInt c m tbase tupp hasCol sumFun oldYF oldFD rows = .ok r) :
+    r.cal.yldForm = c.yldFormCD ∧ r.cal.floweringCD = c.floweringCD ∧ r.calendarType = 2 ∧
+    r.cal.hiEndCD = c.hiStartCD + c.yldFormCD :=
+  yldForm_unchanged h
 end calendarGdd
 
 /-! ### run level, catalogue configurations (`Proofs/Catalogue*.lean`): every hypothesis is membership in a table
